@@ -39,7 +39,9 @@ fn leaves_envelope(op: &Op) -> bool {
             Call::Hub(HubMsg::UParams(_, u, _, _, _, rd)) => u.is_some() || rd.is_some(),
             Call::Reward(RewMsg::UConfig(..)) | Call::Reward(RewMsg::USwapDenom(..)) => true,
             Call::Disp(DispMsg::UConfig(h, r, sd, bd, _, _)) => h.is_some() || r.is_some() || sd.is_some() || bd.is_some(),
-            Call::Disp(DispMsg::USwap(..)) | Call::Disp(DispMsg::UOracle(..)) | Call::Disp(DispMsg::USwapDenom(..)) => true,
+            Call::Disp(DispMsg::USwap(..)) | Call::Disp(DispMsg::UOracle(..)) => true,
+            // adding (or re-adding) a swap denom keeps E3 ("swap_denoms contains both reward denoms"); removing one may not
+            Call::Disp(DispMsg::USwapDenom(_, is_add)) => !*is_add,
             Call::Reg(RegMsg::UConfig(h)) => h.is_some(),
             Call::Tok(TokMsg::UMinter(..)) => true,
             _ => false,
@@ -61,13 +63,19 @@ pub struct Runner {
     pub history: usize,
     pub line_no: usize,
     pub bsei_init_with_balances: bool,
-    pub saved: Option<(Chain, bool, bool, BTreeMap<Id, (Id, Id)>, Option<u128>)>,
+    pub saved: Option<(Chain, bool, bool, BTreeMap<Id, (Id, Id)>, Option<u128>, BTreeMap<u64, u64>, bool)>,
     /// C10 ghost: (owner, nominee) per contract as the *history* of successful SetOwner /
     /// AcceptOwnership calls determines them, independent of what the contract stores
     pub ghost_roles: BTreeMap<Id, (Id, Id)>,
     /// C15 ghost: what the reward contract should have on record, from the *bank* history alone:
     /// its reward-denom bank balance at the last index update minus what has been paid out since
     pub ghost_recorded: Option<u128>,
+    /// C09 ghost: per batch id, when the chain pays its undelegation (chain time of the step that
+    /// wrote the history entry + the chain's unbonding time) — from the history of operations, not
+    /// from the time the hub recorded
+    pub ghost_completion: BTreeMap<u64, u64>,
+    /// E2 (chain unbonding time = hub unbonding_period) has held at every judged step so far
+    pub e2_ok: bool,
     /// E1 (magnitudes ≤ 10^18) has been left in this history
     pub e1_broken: bool,
     pub deep: bool,
@@ -89,6 +97,8 @@ impl Runner {
             saved: None,
             ghost_roles: BTreeMap::new(),
             ghost_recorded: None,
+            ghost_completion: BTreeMap::new(),
+            e2_ok: true,
             e1_broken: false,
             deep: std::env::var("KRP_DEEP").map(|v| v == "1").unwrap_or(false),
         }
@@ -108,18 +118,22 @@ impl Runner {
             self.inst.clear();
             self.ghost_roles.clear();
             self.ghost_recorded = None;
+            self.ghost_completion.clear();
+            self.e2_ok = true;
             self.history += 1;
             self.bsei_init_with_balances = false;
             self.e1_broken = false;
             return "ok | reset".to_string();
         }
         if let Op::Save = op {
-            self.saved = Some((self.chain.clone(), self.envelope, self.bsei_init_with_balances, self.ghost_roles.clone(), self.ghost_recorded));
+            self.saved = Some((self.chain.clone(), self.envelope, self.bsei_init_with_balances, self.ghost_roles.clone(), self.ghost_recorded, self.ghost_completion.clone(), self.e2_ok));
             return "ok | save".to_string();
         }
         if let Op::Restore = op {
-            if let Some((c, e, b, g, gr)) = self.saved.clone() {
+            if let Some((c, e, b, g, gr, gc, e2)) = self.saved.clone() {
                 self.ghost_recorded = gr;
+                self.ghost_completion = gc;
+                self.e2_ok = e2;
                 self.chain = c;
                 self.envelope = e;
                 self.bsei_init_with_balances = b;
@@ -222,6 +236,16 @@ impl Runner {
                 self.e1_broken = true;
             }
             let effects = self.chain.effects.clone();
+            // C09 ghost bookkeeping: batches closed by this step are paid by the chain at now + its unbonding time
+            if self.genesis_done && post.unbonding != self.chain.unbonding_time {
+                self.e2_ok = false;
+            }
+            for h in post.hist.iter() {
+                if !pre.hist.iter().any(|x| x.id == h.id) {
+                    self.ghost_completion.insert(h.id, self.chain.time + self.chain.unbonding_time);
+                }
+            }
+            let ghost_completion = if self.e2_ok { Some(self.ghost_completion.clone()) } else { None };
             let cx = StepCtx {
                 pre: &pre,
                 post: &post,
@@ -233,6 +257,7 @@ impl Runner {
                 err: &r.err,
                 deep: self.deep,
                 ghost_recorded: self.ghost_recorded,
+                ghost_completion: ghost_completion.as_ref(),
                 envelope: self.envelope && !self.bsei_init_with_balances && !self.e1_broken && self.chain.withdraw_addr == DISP,
             };
             let cx_envelope = cx.envelope;
